@@ -88,6 +88,9 @@ structure St where
   /-- lines written to `qapvo` -/
   ios : List (WireName × Int)
   stack : List Frame
+  /-- `runtime.guard` as the backend meets it (`None`, or a `LinComb` holding 0 or 1): set by
+  `add_guard` / `restore_guard`, read by `add_constraint` -/
+  guard : Option LC := none
 deriving Repr, DecidableEq
 
 /-! ## dict helpers -/
@@ -179,12 +182,21 @@ def isSingle (cfg : Cfg) (x : LC) : Bool :=
   | _ => false
 
 /-- `vc_declare_block.ensure_single(x)`: `ret = PrivVal(x.value); ret.assert_eq(x)`, the latter being
-`backend.add_constraint(ZERO.lc, ZERO.lc, (ret - x).lc)` (no guard active) -/
+`runtime.add_constraint(ZERO, ZERO, ret - x)`: with no guard active one call
+`backend.add_constraint(ZERO.lc, ZERO.lc, (ret - x).lc)`; with a guard `g` active
+`dummy = PrivVal(0*0 - (ret - x).value)` (the value is 0: `ret` holds `x.value`), then
+`backend.add_constraint(ZERO.lc, ZERO.lc, (ret - x + dummy).lc)` and
+`backend.add_constraint(g.lc, dummy.lc, ZERO.lc)` -/
 def ensureSingle (cfg : Cfg) (x : LC) (s : St) : LC × St :=
   if isSingle cfg x then (x, s)
   else
     let (sg, s1) := privval x.value s
-    (⟨x.value, sg⟩, addConstraint [] [] (Sig.sub cfg.p sg x.sig) s1)
+    match s.guard with
+    | none => (⟨x.value, sg⟩, addConstraint [] [] (Sig.sub cfg.p sg x.sig) s1)
+    | some g =>
+      let (dm, s2) := privval 0 s1
+      (⟨x.value, sg⟩,
+       addConstraint g.sig dm [] (addConstraint [] [] (Sig.add (Sig.sub cfg.p sg x.sig) dm) s2))
 
 /-- `[ensure_single(x) for x in vcs]` -/
 def ensureAll (cfg : Cfg) : List LC → St → List LC × St
@@ -262,6 +274,11 @@ inductive Op where
   | enter (fn : String) (args : List Arg) (d1 d2 d3 : Int)
   /-- the body returned `rets`: rest of `subqap__` -/
   | leave (rets : List Arg) (rndv r2a r2b : Int)
+  /-- `runtime.guard` changed (`add_guard`, `restore_guard`): the guard now in effect -/
+  | guard (g : Option LC)
+  /-- the body of the call on top of the stack raised: `subqap__` is unwound by the exception, nothing
+  is written and `vc_ctx` is NOT restored -/
+  | abort
 deriving Repr, DecidableEq
 
 def step (cfg : Cfg) (s : St) : Op → St
@@ -281,6 +298,11 @@ def step (cfg : Cfg) (s : St) : Op → St
       let s1 := continuefn f.old { s with stack := rest }
       let (rr, s2) := copyRets rets s1
       vcGlue cfg f.old f.new (f.argret ++ rr) rndv r2a r2b s2
+  | .guard g => { s with guard := g }
+  | .abort =>
+    match s.stack with
+    | [] => s
+    | _ :: rest => { s with stack := rest }
 
 def runFrom (cfg : Cfg) (s : St) : List Op → St
   | [] => s
@@ -464,5 +486,31 @@ def qapsplit {D : Type} [DecidableEq D] (H : List Line → D) (lines : List Line
 def prove {D : Type} [DecidableEq D] (H : List Line → D) (cfg : Cfg) (s : St) :
     Except SplitErr (SplitOut D) :=
   qapsplit H (onDisk cfg s)
+
+/-! ## `prove()` on the TEXT of the equation file
+
+`qapsplit` reads text.  `readBack` is what it sees: every line rendered (`QapText.render`: tokens joined by
+single blanks) and read again by the reader written from the file grammar (`QapText.parseLine`: split at
+blanks, names cut at their first `/`).  For lines whose names contain neither a blank nor, in a context, a
+`/` this is the identity (`Lemmas/QaptoolsText.lean`); a function name with `/` reads back with another
+context. -/
+
+def readBack : List Line → Option (List Line)
+  | [] => some []
+  | l :: r =>
+    match QapText.parseLine (QapText.render l), readBack r with
+    | some l', some r' => some (l' :: r')
+    | _, _ => none
+
+/-- `prove()` as far as the files are concerned, on the text of the equation file -/
+def proveText {D : Type} [DecidableEq D] (H : List Line → D) (cfg : Cfg) (s : St) :
+    Except SplitErr (SplitOut D) :=
+  match readBack (onDisk cfg s) with
+  | some lines => qapsplit H lines
+  | none => .error .malformed
+
+/-- what MD5 is applied to: `m.update(bytes(line, 'utf-8'))` for every line of the normalised set, in its
+(sorted) order, nothing between the lines -/
+def digestInput (q : List Line) : String := String.join (q.map QapText.render)
 
 end Pysnark.Qaptools
